@@ -19,7 +19,7 @@ REQUIRED_THEOREMS = ['window_contiguous', 'origin_x', 'origin_y', 'origin_unchan
 RULE = ('gridded IOAPI files (1-5 steps, 1-4 layers/rows/columns; start times just before midnight, 28/29 Feb, '
         '31 Dec of leap and common years; steps of 30 min to 120 h) x windows on 1-3 of TSTEP/LAY/ROW/COL given as '
         'positive or negative integers or unit-stride slices with None / negative / explicit bounds, incl. windows '
-        'touching either edge: the complete metadata state after sliceDimensions is compared with the Lean model, '
+        'touching either edge, integers given as python ints or numpy integers: the complete metadata state after sliceDimensions is compared with the Lean model, '
         'and an independent oracle recomputes from the SOURCE file the origin (first index x cell), the level edges '
         '(sub-range, one more than layers), the decoded times (sub-range of getTimes()) and SDATE/STIME/TSTEP; '
         'non-trivial = a window that does not start at index 0 on at least one dimension')
@@ -35,7 +35,7 @@ STARTS = [(2019365, 220000), (2020059, 230000), (2019059, 233000), (2001001, 0),
 def _win(rng, L):
     k = rng.random()
     if k < 0.3:
-        return ['i', rng.randrange(-L, L)]
+        return ['i', rng.randrange(-L, L)] + (['np'] if rng.random() < 0.4 else [])     # python int or numpy integer
     a = rng.randrange(0, L)
     b = rng.randrange(a + 1, L + 1)
     if k < 0.5:
